@@ -5,7 +5,7 @@ set -u
 cd "$(dirname "$0")"
 export GOFLAGS=-mod=mod GOPROXY=off GOSUMDB=off GOTOOLCHAIN=local
 mkdir -p bin
-if ! go build -tags verif -o bin/verif ./cmd/verif 2>bin/build.err; then
+if ! { go build -tags verif -o bin/verif ./cmd/verif && go build -tags verif -o bin/drv ./cmd/drv; } 2>bin/build.err; then
   # /repo no longer builds together with the harness: that is a harness-level error, not a verdict
   cat bin/build.err >&2
   echo "HARNESS-ERROR: cannot build bin/verif against /repo" >&2
